@@ -389,6 +389,18 @@ func cmdProp(args []string) int {
 			undecidedNew = append(undecidedNew, name)
 		}
 	}
+	// recorded findings: genuine defects kept on record; printed while they still fail, never alarmed
+	for _, f := range findings {
+		if f.Kind != "finding" || f.Property != *id {
+			continue
+		}
+		if _, claimedToo := base.Claimed[f.Obligation]; claimedToo {
+			continue // handled above
+		}
+		if o, ok := cur[f.Obligation]; ok && !oblOK(o) {
+			known = append(known, fmt.Sprintf("KNOWN-FINDING: property=%s %s (obligation %s, solver %s)", *id, f.Text, f.Obligation, o.Status))
+		}
+	}
 	sort.Strings(staleObls)
 	// obligations missing from the run whose function could not be bound are stale (not violations);
 	// missing obligations of functions that still exist mean the code changed shape: report as stale too.
@@ -418,6 +430,13 @@ func cmdProp(args []string) int {
 	}
 	for h := range havocked {
 		assum["call havocked (unknown effects, result unconstrained): "+h] = true
+	}
+	for n := range base.Unclaimed {
+		if o, ok := cur[n]; ok && o.Kind == "ensures" && !strings.Contains(o.Text, "@return") {
+			if c := owner[n]; c != nil && c.fn.Contract != nil && !strings.Contains(nodeText(prog, c.fn.Contract.Decl), "ensuresGoal("+o.Text) {
+				assum["UNPROVED postcondition still assumed at call sites: "+n] = true
+			}
+		}
 	}
 	assum["sequential semantics: one goroutine; atomics as plain accesses"] = true
 	assum["spec functions and contracts are the oracle (written from the property statement and cited specifications)"] = true
